@@ -377,3 +377,6 @@ PROPS["C14"].streams.append(Stream("bigitem", "bigitem", lambda ctx: [str(2 ** 3
 
 PROPS["C20"].streams.append(Stream("sizes", "sizes", treegen.sizes_cases, flavours=("rel", "dbg"), spec="sizes_spec", nontrivial=lambda c, l: l != "size=0" or "18446" in c,
                                    rule="cbor_serialized_size on trees whose definite strings carry DECLARED lengths near 2^61..2^64 (length metadata forged as in the library's own overflow tests): sums that fit, wrap exactly and wrap by one, in arrays, maps (key+value subtotal), chunk lists and tags; the spec line is the exact unbounded total or 0"))
+
+PROPS["C04"].streams.append(struct_fault(("rel",), None, "growth-fault"))
+PROPS["C12"].streams.append(struct_fault(("rel",), None, "growth-fault"))
